@@ -253,7 +253,8 @@ func C10(tier string) int {
 		"anyOf(roles)", "allOf(roles)", "anyOf(reports.i)", "allOf(reports.t)", "anyOf(reports.b)", "anyOf(reports.tags.k)", "anyOf(places.name)", "anyOf(reports)",
 		"count(roles)", "count(reports)", "count(reports.s)", "count(places.name)", "count(reports.roles)", "count(reports.reports)", "count(reports.boss)", "count(from reports where s = \"a\")", "count(from places where name = \"x\")", "anyOf(s)", "count(s)", "nosuch", "anyOf(nosuch)"}
 	lits := []string{`"a"`, `""`, "5", "-5", "4.5", "1e3", "1E+3", "-0", "0.0", "5e-1", "-4.5e2", "1e999", "99999999999999999999",
-		"datetime(2020-01-02T03:04:05.123456789Z)", "datetime(2020-01-02T03:04:05+01:30)", "datetime(2020-01-02t03:04:05z)", "datetime( 2020-01-02T03:04:05-00:00 )", "datetime(2020-01-02T24:00:00Z)", "true", "FALSE", "null", "datetime(2020-01-02T03:04:05Z)", "datetime(2020-13-02T03:04:05Z)"}
+		"datetime(2020-01-02T03:04:05.123456789Z)", "datetime(2020-01-02T03:04:05+01:30)", "datetime(2020-01-02t03:04:05z)", "datetime( 2020-01-02T03:04:05-00:00 )", "datetime(2020-01-02T24:00:00Z)", "true", "FALSE", "null", "datetime(2020-01-02T03:04:05Z)", "datetime(2020-13-02T03:04:05Z)",
+		"datetime(2020-02-30T00:00:00Z)", "datetime(2021-06-30T23:59:60Z)"}
 	ops := []string{"=", "!=", "<", "<=", ">", ">=", "contains", "not contains", "icontains", "not icontains"}
 	var sentences []string
 	for _, sy := range syms {
@@ -266,11 +267,16 @@ func C10(tier string) int {
 			`[datetime(2020-01-02T03:04:05Z), datetime(2020-01-02T03:04:05+00:00), datetime(2021-01-02T03:04:05.5Z)]`, `[ "a" ,"b"]`,
 			// literals that lex but cannot be converted, in every position of an array
 			`[5, 1e999]`, `[1e999, 5]`, `[5, 99999999999999999999]`, `[99999999999999999999]`, `[4.5, 1e999, 5]`,
-			`[datetime(2020-01-02T03:04:05Z), datetime(2020-13-02T03:04:05Z)]`, `[datetime(2020-13-02T03:04:05Z), datetime(2020-01-02T03:04:05Z)]`, `[datetime(2020-02-30T00:00:00Z)]`} {
+			`[datetime(2020-01-02T03:04:05Z), datetime(2020-13-02T03:04:05Z)]`, `[datetime(2020-13-02T03:04:05Z), datetime(2020-01-02T03:04:05Z)]`, `[datetime(2020-02-30T00:00:00Z)]`,
+			// ... a datetime that satisfies the lexer's digit pattern but is not a date or time of day
+			`[datetime(2020-01-02T03:04:05Z), datetime(2020-02-30T00:00:00Z)]`, `[datetime(2020-02-30T00:00:00Z), datetime(2020-01-02T03:04:05Z)]`,
+			`[datetime(2020-01-02T03:04:05Z), datetime(2021-01-02T03:04:05Z), datetime(2021-04-31T00:00:00Z)]`, `[datetime(2020-01-02T03:04:05Z), datetime(2021-06-30T23:59:60Z)]`,
+			`[datetime(2020-01-02T03:04:05Z), datetime(2021-06-30T25:00:00Z), datetime(2021-01-02T03:04:05Z)]`, `[datetime(2020-01-02T03:04:05Z), datetime(2020-01-02T03:04:05+99:00)]`} {
 			sentences = append(sentences, sy+" in "+arr, sy+" not in "+arr)
 		}
 		for _, bounds := range [][2]string{{"4", "6"}, {"4.5", "6"}, {"6", "4"}, {"datetime(2020-01-02T03:04:05Z)", "datetime(2021-01-02T03:04:05Z)"}, {"4", "datetime(2021-01-02T03:04:05Z)"}, {`"a"`, `"b"`},
-			{"4", "1e999"}, {"1e999", "4"}, {"datetime(2020-01-02T03:04:05Z)", "datetime(2020-13-02T03:04:05Z)"}, {"datetime(2020-13-02T03:04:05Z)", "datetime(2020-01-02T03:04:05Z)"}} {
+			{"4", "1e999"}, {"1e999", "4"}, {"datetime(2020-01-02T03:04:05Z)", "datetime(2020-13-02T03:04:05Z)"}, {"datetime(2020-13-02T03:04:05Z)", "datetime(2020-01-02T03:04:05Z)"},
+			{"datetime(2020-01-02T03:04:05Z)", "datetime(2020-02-30T00:00:00Z)"}, {"datetime(2020-02-30T00:00:00Z)", "datetime(2020-01-02T03:04:05Z)"}, {"datetime(2020-02-30T00:00:00Z)", "datetime(2021-04-31T00:00:00Z)"}} {
 			sentences = append(sentences, sy+" between "+bounds[0]+" and "+bounds[1], sy+" not between "+bounds[0]+" and "+bounds[1])
 		}
 		sentences = append(sentences, sy, "not "+sy, "isEmpty("+sy+")", "not isEmpty("+sy+")", "true sort by "+sy, "true sort by "+sy+" desc", sy+" and "+sy, "isEmpty(from "+sy+" where true)", "count(from "+sy+" where id = \"e1\") > 0")
